@@ -75,18 +75,21 @@ struct Case {
 // ------------------------------------------------------------------------------------------
 // reference evaluator
 
-type F2 = (f64, f64);
+/// (left, right, magnitude): the magnitude is the same signal flow evaluated on absolute values,
+/// so it is zero only where nothing at all is routed (a zero that comes from cancellation of
+/// two paths is not 'exact silence')
+type F2 = (f64, f64, f64);
 
 fn apply_fx(fx: &[MFx], x: F2, a: f64) -> F2 {
 	let mut v = x;
 	for f in fx {
 		v = match f {
-			MFx::Gain(g) => (v.0 * *g as f64, v.1 * *g as f64),
-			MFx::Clip(l) => (v.0.clamp(-*l as f64, *l as f64), v.1.clamp(-*l as f64, *l as f64)),
-			MFx::Swap => (v.1, v.0),
+			MFx::Gain(g) => (v.0 * *g as f64, v.1 * *g as f64, v.2 * (*g as f64).abs()),
+			MFx::Clip(l) => (v.0.clamp(-*l as f64, *l as f64), v.1.clamp(-*l as f64, *l as f64), v.2),
+			MFx::Swap => (v.1, v.0, v.2),
 			MFx::Volume(p) => {
 				let g = p.amp_at(a);
-				(v.0 * g, v.1 * g)
+				(v.0 * g, v.1 * g, v.2 * g)
 			}
 			MFx::Pan(p) => {
 				if *p == 0.0 {
@@ -94,7 +97,7 @@ fn apply_fx(fx: &[MFx], x: F2, a: f64) -> F2 {
 				} else {
 					let p = (*p as f64).clamp(-1.0, 1.0);
 					let m = (p + 1.0) * 0.5;
-					(v.0 * (1.0 - m).sqrt() * std::f64::consts::SQRT_2, v.1 * m.sqrt() * std::f64::consts::SQRT_2)
+					(v.0 * (1.0 - m).sqrt() * std::f64::consts::SQRT_2, v.1 * m.sqrt() * std::f64::consts::SQRT_2, v.2 * std::f64::consts::SQRT_2)
 				}
 			}
 		};
@@ -311,7 +314,7 @@ impl Model {
 	}
 
 	fn sound_frame(&mut self, track: Option<usize>) -> F2 {
-		let mut acc = (0.0, 0.0);
+		let mut acc = (0.0, 0.0, 0.0);
 		for s in self.sounds.iter_mut().filter(|s| s.track == track && s.place == Where::Live) {
 			let live = s.spec.len.map(|l| s.pos < l).unwrap_or(true);
 			if live {
@@ -324,6 +327,7 @@ impl Model {
 				};
 				acc.0 += v.0;
 				acc.1 += v.1;
+				acc.2 += v.0.abs() + v.1.abs();
 			}
 			s.pos += 1;
 			s.expected_frames += 1;
@@ -333,27 +337,30 @@ impl Model {
 
 	fn track_frame(&mut self, t: usize, a: f64, active: &[bool], send_in: &mut [F2]) -> F2 {
 		if !active[t] {
-			return (0.0, 0.0);
+			return (0.0, 0.0, 0.0);
 		}
-		let mut acc = (0.0, 0.0);
+		let mut acc = (0.0, 0.0, 0.0);
 		for c in self.children(Some(t)) {
 			if self.tracks[c].place == Where::Live {
 				let v = self.track_frame(c, a, active, send_in);
 				acc.0 += v.0;
 				acc.1 += v.1;
+				acc.2 += v.2;
 			}
 		}
 		let s = self.sound_frame(Some(t));
 		acc.0 += s.0;
 		acc.1 += s.1;
+		acc.2 += s.2;
 		let v = apply_fx(&self.tracks[t].fx, acc, a);
 		let g = self.tracks[t].vol.amp_at(a) * self.tracks[t].fade.amp_at(a);
-		let out = (v.0 * g, v.1 * g);
+		let out = (v.0 * g, v.1 * g, v.2 * g);
 		for (send, vol, _) in &self.tracks[t].routes {
 			if self.sends[*send].place == Where::Live {
 				let rv = vol.amp();
 				send_in[*send].0 += out.0 * rv;
 				send_in[*send].1 += out.1 * rv;
+				send_in[*send].2 += out.2 * rv;
 			}
 		}
 		out
@@ -387,13 +394,14 @@ impl Model {
 		let mut out = Vec::with_capacity(n);
 		for i in 0..n {
 			let a = (i + 1) as f64 / n as f64;
-			let mut send_in = vec![(0.0, 0.0); self.sends.len()];
-			let mut acc = (0.0, 0.0);
+			let mut send_in = vec![(0.0, 0.0, 0.0); self.sends.len()];
+			let mut acc = (0.0, 0.0, 0.0);
 			for t in self.children(None) {
 				if self.tracks[t].place == Where::Live {
 					let v = self.track_frame(t, a, &active, &mut send_in);
 					acc.0 += v.0;
 					acc.1 += v.1;
+					acc.2 += v.2;
 				}
 			}
 			for (k, s) in self.sends.iter().enumerate() {
@@ -402,14 +410,16 @@ impl Model {
 					let g = s.vol.amp_at(a);
 					acc.0 += v.0 * g;
 					acc.1 += v.1 * g;
+					acc.2 += v.2 * g;
 				}
 			}
 			let m = self.sound_frame(None);
 			acc.0 += m.0;
 			acc.1 += m.1;
+			acc.2 += m.2;
 			let v = apply_fx(&self.main_fx, acc, a);
 			let g = self.main_vol.amp_at(a);
-			out.push(((v.0 * g).clamp(-1.0, 1.0), (v.1 * g).clamp(-1.0, 1.0)));
+			out.push(((v.0 * g).clamp(-1.0, 1.0), (v.1 * g).clamp(-1.0, 1.0), v.2 * g));
 		}
 		out
 	}
@@ -674,12 +684,12 @@ fn run_case(c: &Case) -> Result<(bool, bool), Failure> {
 					if l != 0.0 || r != 0.0 {
 						nonzero = true;
 					}
-					let (wl, wr) = want[i];
+					let (wl, wr, wmag) = want[i];
 					let tol = 1e-5 * (1.0 + wl.abs().max(wr.abs()));
 					if (l - wl).abs() > tol || (r - wr).abs() > tol {
 						return Err(Failure::simple("signal-flow-sum", format!("op #{oi}, output frame {} (frame {i} of this callback): got ({l}, {r}), signal-flow model gives ({wl}, {wr}); case {c:?}", t_total + i)));
 					}
-					if wl == 0.0 && wr == 0.0 {
+					if wmag == 0.0 {
 						ensure!(l == 0.0 && r == 0.0, "exact-silence", "op #{oi}, frame {i}: got ({l}, {r}) where nothing is routed to the output; case {c:?}");
 					}
 				}
